@@ -218,8 +218,9 @@ Print Assumptions C01_example_refusal_nonvacuous.
 From Coq Require Import String.
 From NL Require Import Life.ImpSyntax Gen.ImpSkeleton Life.ImpTie.
 
-(** no transition is triggered outside the lock (so none can cancel another half way), the lock
-    is released on every path *)
+(** no transition is triggered BY A METHOD OF Imp / Nextline outside the lock (so no API request can
+    cancel another half way); the run task's own `finish` trigger (fsm/callback.py) is outside the
+    lock by design and not covered here; the lock is free at the end of every path *)
 Theorem C01_tie_lock_discipline : forall ob m, In m (names ob) -> forall st cl o,
   let x := exec ob m st cl o in
   res_of x <> RBad /\ lock_ok false (trace_of x) = true /\ lk_held (cfg_of x) = false.
@@ -242,7 +243,7 @@ Theorem C01_tie_second_start_does_nothing : forall cl o,
     (RNorm, mkCfg true cl false, [EEnter ONextline "start"%string; EGuard (GFlag FStarted) true]).
 Proof. exact second_start_does_nothing. Qed.
 
-(** Imp.aopen: the `init` hook, then the `initialize` transition, under the lock *)
+(** Imp.aopen: the `init` hook, then the `initialize` transition, under the lock (a pin of the shape) *)
 Theorem C01_tie_aopen_shape :
   trace_of (exec OImp "aopen"%string false false []) =
     [EEnter OImp "aopen"%string; EAcq true; EHook false "init"%string true; ETrig TAopen true; ERel].
@@ -258,9 +259,28 @@ Theorem C01_tie_only_through_imp :
      [(FStarted, nl_started (init_state a b c d)); (FClosed, nl_closed (init_state a b c d))]).
 Proof. exact nextline_reaches_machine_only_through_imp. Qed.
 
+(** per-call refinement against Model.do_call / do_step (Life/ImpTie.v section 5), every oracle *)
+Theorem C01_tie_call_refinement : forall s c m, In s ref_states -> In c ref_calls -> In m (nl_methods_of c) ->
+  (forall o, let x := exec ONextline m (nl_started s) (nl_closed s) o in
+     verdict_of s c x <> VMismatch /\ (verdict_of s c x = VEqual -> end_agrees s c x = true)) /\
+  (exists o, verdict_of s c (exec ONextline m (nl_started s) (nl_closed s) o) = VEqual).
+Proof. exact call_refinement. Qed.
+
+(** fsm/machine.py (a pin of names): aopen = initialize, aclose = close, callbacks -> Callback methods *)
+Theorem C01_tie_machine_wrappers_pin :
+  machine_wrappers = [("aclose", "close"); ("aopen", "initialize")]%string /\
+  machine_callbacks =
+    [("after_state_change", ["on_change_state"]); ("on_exit_created", ["start"]);
+     ("on_enter_initialized", ["initialize_run"]); ("on_enter_running", ["start_run"]);
+     ("on_close_while_running", ["wait_for_run_finish"]); ("on_enter_finished", ["finish"]);
+     ("on_exit_finished", ["on_exit_finished"]); ("on_enter_closed", ["close"]); ("on_reset", ["reset"])]%string.
+Proof. exact machine_wrappers_pin. Qed.
+
 Print Assumptions C01_tie_lock_discipline.
 Print Assumptions C01_tie_call_trigger.
 Print Assumptions C01_tie_flags_atomic.
 Print Assumptions C01_tie_second_start_does_nothing.
 Print Assumptions C01_tie_aopen_shape.
 Print Assumptions C01_tie_only_through_imp.
+Print Assumptions C01_tie_call_refinement.
+Print Assumptions C01_tie_machine_wrappers_pin.
